@@ -9,7 +9,7 @@ import (
 	"github.com/syndtr/goleveldb/leveldb/comparer"
 )
 
-// All comparers here are injective: Compare(a,b)==0 iff bytes.Equal(a,b).
+// All comparers here except ZeroPad are injective: Compare(a,b)==0 iff bytes.Equal(a,b).
 
 // Reverse orders keys in descending bytewise order. Helpers return nil ("use a").
 type Reverse struct{}
@@ -89,12 +89,47 @@ func (ReverseShortening) Successor(dst, b []byte) []byte {
 }
 
 // Comparers is the list used by the option matrix. Index 0 is the default.
+// Canonicalizer is implemented by comparers that identify distinct byte strings (Compare(a,b)==0 although
+// !bytes.Equal(a,b)), like the numeric comparer of the repository's own TestDB_CustomComparer: Canon maps
+// every member of an equivalence class to the same representative.
+type Canonicalizer interface {
+	Canon(k []byte) []byte
+}
+
+// CanonKey returns the class representative of k under cmp (k itself for injective comparers).
+func CanonKey(cmp comparer.Comparer, k []byte) []byte {
+	if c, ok := cmp.(Canonicalizer); ok {
+		return c.Canon(k)
+	}
+	return k
+}
+
+// ZeroPad is bytewise order on keys with their trailing 0x00 bytes stripped: "a", "a\x00" and "a\x00\x00"
+// are one user key. Helpers never shorten. Not part of Comparers: workers opt in (OptConstraints.NonInjective)
+// because a bloom filter over the raw key bytes is not usable with such a comparer.
+type ZeroPad struct{}
+
+func (ZeroPad) Canon(k []byte) []byte {
+	n := len(k)
+	for n > 0 && k[n-1] == 0 {
+		n--
+	}
+	return k[:n]
+}
+func (z ZeroPad) Compare(a, b []byte) int           { return bytes.Compare(z.Canon(a), z.Canon(b)) }
+func (ZeroPad) Name() string                      { return "verif.ZeroPad" }
+func (ZeroPad) Separator(dst, a, b []byte) []byte { return nil }
+func (ZeroPad) Successor(dst, b []byte) []byte    { return nil }
+
 var Comparers = []comparer.Comparer{
 	comparer.DefaultComparer, Reverse{}, Shortlex{}, Lazy{}, Unshortened{}, ReverseShortening{},
 }
 
 // ComparerByName finds a comparer of the matrix by its Name().
 func ComparerByName(n string) comparer.Comparer {
+	if n == (ZeroPad{}).Name() {
+		return ZeroPad{}
+	}
 	for _, c := range Comparers {
 		if c.Name() == n {
 			return c
